@@ -7,7 +7,7 @@ import time
 from common import (CONC_BIN, SCRATCH, SHIM, WORKERS, HarnessError, fresh_dir, load_known_findings, log, save_replay,
                     tree_fingerprint)
 
-RUNS = {"quick": 6000, "thorough": 200000}
+RUNS = {"quick": 20000, "thorough": 400000}
 
 
 def seam_env():
